@@ -64,7 +64,7 @@ func (w *World) Structural() []structural {
 				case *ssa.Select, *ssa.Send:
 					gos = append(gos, FuncKey(f)+" (channel operation)")
 				case *ssa.Store:
-					if g, ok := in.Addr.(*ssa.Global); ok && !strings.HasPrefix(f.Name(), "init") && g.Pkg != nil && strings.HasPrefix(g.Pkg.Pkg.Path(), RepoModule) {
+					if g, ok := in.Addr.(*ssa.Global); ok && !strings.HasPrefix(f.Name(), "init") && g.Pkg != nil && inRepoPath(g.Pkg.Pkg.Path()) {
 						globalWrites = append(globalWrites, FuncKey(f)+" writes "+g.Name())
 					}
 				case ssa.CallInstruction:
